@@ -21,13 +21,94 @@ META = {
 }
 
 
+EXTREME_KINDS = ["Drift", "BmadxDrift", "Quadrupole", "BmadxQuadrupole", "Dipole", "BmadxDipole", "Solenoid", "Cavity",
+                 "HorizontalCorrector", "Undulator", "Aperture", "TransverseDeflectingCavity", "Marker", "ActiveBPM", "ActiveScreen"]
+
+
+def extreme_case(rep, r: dict) -> None:
+    """"never modifies the incoming beam" holds for *every* beam, also one that contains particles the element cannot
+    transport (more transverse than total momentum, far below the reference energy): whatever the outgoing coordinates
+    of such a particle are (NaN), the incoming beam object is bit-identical afterwards and a second track of it gives the
+    same (NaN-aware) result"""
+    import numpy as np
+    import torch
+    import cheetah
+    import lattices as LT
+    F64 = torch.float64
+    P = np.array(r["particles"], dtype=float)
+    rec, En = r["record"], r["energy"]
+    el = LT.build_elements([rec])[0]
+    if r["where"] == "segment":
+        el = cheetah.Segment([cheetah.Quadrupole(length=torch.tensor(0.2, dtype=F64), k1=torch.tensor(1.0, dtype=F64), dtype=F64), el,
+                              cheetah.Drift(length=torch.tensor(0.3, dtype=F64), dtype=F64)])
+    b = cheetah.ParticleBeam(torch.tensor(P, dtype=F64), torch.tensor(En, dtype=F64), particle_charges=torch.full((P.shape[0],), 1e-12, dtype=F64),
+                             dtype=F64)
+    snap = {k: getattr(b, k).detach().clone() for k in ("particles", "energy", "particle_charges", "survival_probabilities")}
+    tag = LT.class_seq([rec])
+
+    def same(x, y):
+        return x.shape == y.shape and bool(torch.equal(torch.nan_to_num(x, nan=1.25e300), torch.nan_to_num(y, nan=1.25e300)))
+    try:
+        o1 = el.track(b)
+    except Exception:  # noqa: BLE001  (an element may reject such a beam; then nothing was tracked)
+        o1 = None
+    for k, v in snap.items():
+        if not same(getattr(b, k).detach(), v):
+            rep.fail("falsifier", f"C11|track|{tag}|beam with untransportable particles|incoming {k} modified",
+                     f"{tag} ({r['where']}): tracking a beam that contains untransportable particles changed the incoming beam's {k}: "
+                     f"{v.reshape(-1)[:8].tolist()} -> {getattr(b, k).detach().reshape(-1)[:8].tolist()}", r)
+            return
+    if o1 is None:
+        return
+    o2 = el.track(b)
+    for k in ("particles", "survival_probabilities", "energy"):
+        if not same(getattr(o1, k).detach(), getattr(o2, k).detach()):
+            rep.fail("falsifier", f"C11|track|{tag}|beam with untransportable particles|repeated track differs ({k})",
+                     f"{tag} ({r['where']}): the second track of the same beam gives different {k}", r)
+            return
+
+
+def extreme_probe(ctx, n: int) -> None:
+    import numpy as np
+    import elements as E
+    import lattices as LT
+    rep, rng = ctx.report, ctx.rng
+    for i in range(n):
+        kind = EXTREME_KINDS[i % len(EXTREME_KINDS)]
+        if kind == "BmadxDipole":
+            rec = E.gen_params(rng, "Dipole", force={"method": "bmadx", "k1": 0.0})
+            rec["L"] = rec["L"] or 0.5
+            rec["angle"] = rec["angle"] or 0.1
+        elif kind == "TransverseDeflectingCavity":
+            rec = E.gen_params(rng, kind)
+        else:
+            rec = LT.gen_record(rng, kind)
+        En = float(E.pick(rng, 5e6, 1e8, E.energy(rng)))
+        P = LT.gen_particles(rng, 6)
+        P[3, 1] = float(E.pick(rng, 1.3, -1.1))                     # |px| > 1: more transverse than total momentum
+        P[4, [1, 3, 5]] = [0.3, 0.4, -0.7]                          # slow particle with px^2 + py^2 >= (1 + pz)^2
+        if rng.random() < 0.5:
+            P[2, 5] = -1.5                                           # energy below the rest energy
+        r = {"kind": "extreme", "record": rec, "energy": En, "particles": P.tolist(), "where": E.pick(rng, "alone", "segment")}
+        rep.fals_cases += 1
+        rep.count("probe:extreme:" + kind)
+        rep.case(("extreme", kind, r["where"]), None)
+        try:
+            extreme_case(rep, r)
+        except Exception as ex:  # noqa: BLE001
+            rep.count(f"extreme:rejected:{type(ex).__name__}")
+
+
 def run(ctx) -> None:
+    extreme_probe(ctx, ctx.n(30, 600))
     run_screen_correspondence(ctx, "C11", ctx.n(40, 500))
     if F is not None:
         F.run(ctx)
 
 
 def corpus_case(ctx, r: dict) -> None:
+    if r.get("kind") == "extreme":
+        return extreme_case(ctx.report, r)
     if F is not None and hasattr(F, "corpus_case"):
         F.corpus_case(ctx, r)
 
